@@ -69,6 +69,7 @@ func runC17(c *Check) {
 	c17NodesAdds(c)
 	c17PeerOffers(c)
 	c17StatusTransitions(c)
+	c17BlacklistRemoves(c)
 }
 
 func c17TryGet(c *Check) {
@@ -415,4 +416,60 @@ func c17StatusTransitions(c *Check) {
 		}
 	}
 	c.Ob("R17.6", "afterCooldown only as onPop", direct == 0, p.Pos(ac.Pos()), "no direct call of afterCooldown; it is reached only as the timed queue's expiry callback")
+}
+
+// c17BlacklistRemoves: with blacklisting enabled, a blacklisted peer leaves the
+// general pool unconditionally - the removal must not depend on the outcome of
+// blocking the peer in the connection gater or of closing its connections.
+func c17BlacklistRemoves(c *Check) {
+	p := c.P
+	fn := p.Func("share/shwap/p2p/shrex/peers", "Manager", "blacklistPeers")
+	if fn == nil {
+		c.Unresolved("R17.5", "Manager.blacklistPeers not found")
+		return
+	}
+	c.SawFunc(fn)
+	var enabled *ssa.BasicBlock
+	for _, b := range fn.Blocks {
+		ifi, ok := b.Instrs[len(b.Instrs)-1].(*ssa.If)
+		if !ok {
+			continue
+		}
+		a := stripNot(ifi.Cond)
+		if f := fieldOfAddr(a.Base); f != nil && f.Name() == "EnableBlackListing" {
+			enabled = b.Succs[0]
+			if a.Neg {
+				enabled = b.Succs[1]
+			}
+		}
+	}
+	if enabled == nil {
+		c.Ob("R17.5", "blacklistPeers: enabled branch", false, p.Pos(fn.Pos()), "blacklistPeers branches on EnableBlackListing")
+		return
+	}
+	removes := blocksWhere(fn, func(ins ssa.Instruction) bool {
+		g, ok := ins.(*ssa.Call)
+		if !ok || g.Call.StaticCallee() == nil || g.Call.StaticCallee().Name() != "remove" || len(g.Call.Args) == 0 {
+			return false
+		}
+		f := fieldOfAddr(g.Call.Args[0])
+		return f != nil && f.Name() == "nodes"
+	})
+	if removes[enabled] {
+		c.Ob("R17.5", "blacklistPeers removes from the general pool unconditionally", true, p.Pos(fn.Pos()), "the removal is the first thing done on the enabled side")
+		return
+	}
+	// every way out of this iteration (next iteration or return) passes the removal
+	targets := map[*ssa.BasicBlock]bool{}
+	for _, b := range fn.Blocks {
+		if b.Comment == "rangeindex.loop" || b.Comment == "rangeiter.loop" {
+			targets[b] = true
+		}
+	}
+	for _, r := range returnsOf(fn) {
+		targets[r.Block()] = true
+	}
+	res := gateWalkOpts(p, fn, targets, nil, enabled, removes)
+	c.Ob("R17.5", "blacklistPeers removes from the general pool unconditionally", len(removes) > 0 && !res.Reached, p.Pos(fn.Pos()),
+		"with blacklisting enabled every path through an iteration passes nodes.remove(peer): it does not depend on BlockPeer or ClosePeer succeeding", res.Witness...)
 }
